@@ -35,6 +35,8 @@ def run(ctx):
         progress(ctx, s)
         finaliser(ctx, crate, s, want)
     fill_helpers(ctx, crate)
+    from rules.c08 import containment_test
+    containment_test(ctx, crate)
     from rules import c07_goup
     c07_goup.run(ctx, crate)
     from rules.c15 import pack_rule
